@@ -24,10 +24,14 @@ def shards(tier):
         {"name": "small.np.jit", "mode": "jit", "backend": "np", "fn": "small", "stride": 12 if q else 1},
         {"name": "small.torch", "mode": "jit", "backend": "torch", "fn": "small", "stride": 192 if q else 16},
         {"name": "rand.np.jit", "mode": "jit", "backend": "np", "fn": "rand", "n": 250 if q else 12000, "big": 150 if q else 20000},
+        {"name": "forms.np.jit", "mode": "jit", "backend": "np", "fn": "rand", "n": 80 if q else 4000, "big": 40 if q else 4000, "forms": 1},
         {"name": "rand.np.interp", "mode": "interp", "backend": "np", "fn": "rand", "n": 60 if q else 1500, "big": 10 if q else 300},
         {"name": "rand.torch", "mode": "jit", "backend": "torch", "fn": "rand", "n": 40 if q else 1500, "big": 10 if q else 500},
         {"name": "live.np.jit", "mode": "jit", "backend": "np", "fn": "live", "n": 40 if q else 2500},
         {"name": "live.torch", "mode": "jit", "backend": "torch", "fn": "live", "n": 10 if q else 400},
+        {"name": "wide.np.jit", "mode": "jit", "backend": "np", "fn": "wide", "n": 1 if q else 20},
+        {"name": "wide.np.interp", "mode": "interp", "backend": "np", "fn": "wide", "n": 1 if q else 2, "Ns": [40, 66]},
+        {"name": "wide.torch", "mode": "jit", "backend": "torch", "fn": "wide", "n": 1 if q else 4, "Ns": [40, 66]},
     ]
     if not q:
         for k in range(4):
@@ -219,3 +223,48 @@ def run_live(shard, rec, B):
                 if ok:
                     rec.check("live.ent", abs(_val(B, x) - want) < 1e-6, case, 0 < len(A) < N, expected=want, observed=_val(B, x))
         live.walk(rec, B, rng, N, int(rng.integers(4, 16)), query)
+
+
+def bell_tableau(N, order="blocked"):
+    """N/2 Bell pairs (i, i+N/2): stabilizers XX and ZZ; destabilizers chosen to complete a valid tableau (ZI and IX)."""
+    h = N // 2
+    stab, dest = [], []
+    for i in range(h):
+        xx = np.zeros(2 * N, dtype=np.int64)
+        xx[2 * i] = xx[2 * (i + h)] = 1
+        zz = np.zeros(2 * N, dtype=np.int64)
+        zz[2 * i + 1] = zz[2 * (i + h) + 1] = 1
+        zi = np.zeros(2 * N, dtype=np.int64)
+        zi[2 * i + 1] = 1
+        ix = np.zeros(2 * N, dtype=np.int64)
+        ix[2 * (i + h)] = 1
+        stab.append((xx, zi))
+        stab.append((zz, ix))
+    if order == "blocked":
+        stab = stab[0::2] + stab[1::2]
+    gs = np.stack([a for a, _ in stab] + [b for _, b in stab])
+    return gs, np.zeros(2 * N, dtype=np.int64)
+
+
+def run_wide(shard, rec, B):
+    """registers of 40..130 qubits (word / tile thresholds): structured states whose entropies are known analytically
+    (Bell pairs across the cut, in two generator orders) and random states judged by the oracle's own GF(2) rank."""
+    rng = gen.rng_for(rec)
+    Ns = shard.get("Ns", [40, 64, 66, 72, 80, 128, 130])
+    for t in range(shard["n"]):
+        for N in Ns:
+            h = N // 2
+            for order in ("blocked", "interleaved"):
+                tg, tp = bell_tableau(N, order)
+                if O.tableau_problems(tg, tp, 0):
+                    rec.inconclusive("bell tableau invalid")
+                    continue
+                subs = [list(range(h)), list(range(8)), list(range(h - 3, h + 5)), gen.rand_subset(rng, N, h), list(range(N - 1))]
+                check_state(rec, B, tg, tp, 0, subs, rng, dense=False, extras=False)
+                for r in (1, 8, h):
+                    check_state(rec, B, tg, tp, r, subs[:3], rng, dense=False, extras=False)
+            tg, tp, _ = O.random_tableau(rng, N, r=0, nrot=N)
+            subs = [list(range(h)), gen.rand_subset(rng, N, int(rng.integers(1, N))), gen.rand_subset(rng, N, N - 2)]
+            check_state(rec, B, tg, tp, 0, subs, rng, dense=False, extras=(N <= 72))
+            r = int(rng.integers(1, N))
+            check_state(rec, B, tg, tp, r, subs, rng, dense=False, extras=(N <= 72))
